@@ -222,4 +222,63 @@ mutual
         rfl
 end
 
+/-! ### the shape of what `XMLParser` delivers, whatever expat calls -/
+
+def plainText : Event → Bool
+  | .text _ true => false
+  | _ => true
+
+theorem handleCb_plain (entity : Str → Option Char) (c : Cb) (es : List Event)
+    (h : handleCb entity c = .events es) : es.all plainText = true := by
+  cases c with
+  | other t =>
+    cases t with
+    | nil => simp [handleCb] at h; subst h; rfl
+    | cons ch rest =>
+      simp only [handleCb] at h
+      split at h
+      · split at h
+        · cases h; rfl
+        · cases h
+      · cases h; rfl
+  | _ => simp only [handleCb] at h; cases h; rfl
+
+theorem runCbs_plain (entity : Str → Option Char) : ∀ (cbs : List Cb),
+    (runCbs entity cbs).1.all plainText = true := by
+  intro cbs
+  induction cbs with
+  | nil => rfl
+  | cons c cs ih =>
+    simp only [runCbs]
+    cases hc : handleCb entity c with
+    | events es =>
+      simp only [List.all_append, Bool.and_eq_true]
+      exact ⟨handleCb_plain entity c es hc, ih⟩
+    | undefinedEntity => rfl
+
+theorem coalesceGo_plain : ∀ (s : Stream) (buf : Option Str), s.all plainText = true →
+    (coalesceGo buf s).all plainText = true := by
+  intro s
+  induction s with
+  | nil => intro buf _; cases buf <;> rfl
+  | cons e es ih =>
+    intro buf h
+    simp only [List.all_cons, Bool.and_eq_true] at h
+    cases buf with
+    | none =>
+      cases e with
+      | text s f => simp only [coalesceGo]; exact ih _ h.2
+      | _ => simp only [coalesceGo, List.all_cons, Bool.and_eq_true]; exact ⟨rfl, ih _ h.2⟩
+    | some t =>
+      cases e with
+      | text s f => simp only [coalesceGo]; exact ih _ h.2
+      | _ => simp only [coalesceGo, List.all_cons, Bool.and_eq_true]; exact ⟨rfl, rfl, ih _ h.2⟩
+
+/-- whatever expat calls, the stream XMLParser delivers has no two TEXT events in a row, no `Markup` text, and
+    the events other than TEXT are those the callbacks enqueued, in order -/
+theorem parseCbs_shape (entity : Str → Option Char) (cbs : List Cb) :
+    NoAdjText (parseCbs entity cbs).1 ∧ (parseCbs entity cbs).1.all plainText = true ∧
+    nonText (parseCbs entity cbs).1 = nonText (runCbs entity cbs).1 := by
+  refine ⟨coalesce_noAdj _, coalesceGo_plain _ none (runCbs_plain entity cbs), nonText_coalesce _⟩
+
 end Genshi.Xml
